@@ -25,13 +25,13 @@ def element_of_token(case):
 def oracle_c06(rec):
     out = []
     case = rec["case"]
-    if not getattr(case, "wp", False):
+    if not (getattr(case, "wp", False) or getattr(case, "cert", False)):
         return out
     inp = {"text": case.text, "history": genrun.history(rec["log"])[:80]}
     if rec["error"] is not None:
         if genrun.is_c11_draw_failure(rec["error"]):
             return out
-        out.append(("well-posed-molecule-fails", inp, f"{type(rec['error']).__name__}: {rec['error']}", None))
+        out.append(("certified-molecule-fails" if getattr(case, "cert", False) else "well-posed-molecule-fails", inp, f"{type(rec['error']).__name__}: {rec['error']}", None))
         return out
     s = rec["summary"]
     if s["opens"]:
@@ -125,13 +125,15 @@ def main():
     outs = ck.driver.run([{"op": "WELLPOSED", "els": c.els} for c in cases])
     for c, o in zip(cases, outs):
         c.wp = bool(o.get("wp"))
+        c.cert = bool(o.get("cert"))
         ck.count(("well-posed:" if c.wp else "not-well-posed:") + c.archetype.split(":")[0])
+        ck.count("certificate:" + ("wp+cert" if c.wp and c.cert else "wp-only" if c.wp else "cert-only" if c.cert else "neither"))
     recs = genrun.run_batch(ck, cases, seeds_per_case=3 if quick else 8, what=("struct",), seed_base=ck.seed * 49979687 + 6,
                             oracles=[oracle_c06], forced=genrun.cap_targets)
     for rec in recs:
         c = rec["case"]
         s = rec["summary"]
-        ck.case((c.text, tuple(genrun.history(rec["log"]))), nontrivial=c.wp,
+        ck.case((c.text, tuple(genrun.history(rec["log"]))), nontrivial=c.wp or c.cert,
                 sample={"text": c.text, "well_posed": c.wp, "residues": None if s is None else len(s["sizes"]), "error": None if rec["error"] is None else rec["error"].name})
         if not c.wp:
             ck.count("not-well-posed-run:" + ("error" if rec["error"] is not None else ("complete" if s is not None and not s["opens"] else "open-left")))
@@ -143,7 +145,9 @@ def main():
         c = genrun.parse_case(text, "bounded")
         if c is None:
             continue
-        c.wp = bool(ck.driver.run([{"op": "WELLPOSED", "els": c.els}])[0].get("wp"))
+        o_ = ck.driver.run([{"op": "WELLPOSED", "els": c.els}])[0]
+        c.wp = bool(o_.get("wp"))
+        c.cert = bool(o_.get("cert"))
         n = 0
         for rec, p in genrun.enumerate_paths(c, forced, max_paths=400 if quick else 20000, seed=ck.seed):
             rec["error"] = None if rec["error"] is None else genrun.LightErr(rec["error"])
@@ -155,7 +159,8 @@ def main():
     ck.rule = ("one case = one real generation of a molecule whose well-posedness the model's closability analysis decided (corpus, all archetypes, and variants broken "
                "in their closability); for well-posed molecules every run must complete, leave nothing open, bond every descriptor exactly once and respect the "
                "element order; non-trivial = well-posed; distinct by (string, history); plus all choice sequences of bounded instances")
-    ck.extra["assumptions"] = ["that wellPosed implies completion for every oracle is not a theorem (C06_partial): it is what this check tests"]
+    ck.extra["assumptions"] = ["C06_certified_generates covers the molecules with a certificate (counts under certificate:*); that the wider analysis wellPosed implies "
+                               "completion for every oracle is not a theorem (C06_partial): it is what this check tests"]
     ck.finish()
 
 
